@@ -88,6 +88,7 @@ Section Time.
         { intros s0 s2 w2 x. pose proof (disconnect_clock s0 w1) as Hc. destruct (disconnect s0 w1) as [a b].
           intros [= <- <- _]. cbn [snd] in Hc. rewrite Hc. exact Hw1. }
         destruct rr as [b| |]; [|apply Hclose|apply Hclose].
+        destruct (length b =? 0)%nat; [intros [= <- <- <-]; exact Hw1|].
         destruct ((32 * (length (pend ++ b) / 32)) =? 0)%nat.
         * intro H. destruct (IH _ _ _ _ _ _ _ _ (proj2 Hw1) H). lia.
         * destruct (dec (div s) _) as [pt iv'].
